@@ -831,7 +831,18 @@ def _loop_inside(node, try_node):
     return False
 
 
-RULES = [rule_balance, rule_ownership]
+def _inl(rule):
+    """Run a rule on the view in which helpers that are new w.r.t. the
+    reference tree are inlined at their call sites (normalise.N2)."""
+    def run(model):
+        return rule(model.inlined_view())
+    run.__name__ = rule.__name__
+    return run
+
+
+INLINED_VIEW = True
+RULES_PLAIN = [rule_balance, rule_ownership]
+RULES = [_inl(r_) for r_ in RULES_PLAIN] if INLINED_VIEW else RULES_PLAIN
 EXPLANATION = (
     'Structured path-sensitive abstract interpretation (stack depth, '
     'counted-push relation, fresh-namespace set, flag correlation) of every '
